@@ -16,7 +16,22 @@
 //! * operators on `Date`/`DateTime` panic exactly when `checked_*` is `Err`
 //!   (documented); operators on `Time` wrap (documented).
 //! * series: item k == start + k*period, exhausted exactly when k*period is
-//!   no longer a span or the sum overflows.
+//!   no longer a span or the sum overflows (a zero period repeats the start).
+//!
+//! Alphabets: single units at 1, 2, every carry +-1, a mid-range magnitude,
+//! the magnitudes around the absolute epoch-day range in every unit that can
+//! express them, machine-integer widths (2^31, 2^32, 2^53) for the sub-hour
+//! units, limit-1, limit; every 2-unit mix; every 3-unit mix over {carry+1,
+//! mid}; fixed mixes and composite carries (time units that only together
+//! reach a whole day); both signs. `c08/ext.rs` adds model-derived boundary
+//! steps (last in-range count and one beyond, per start/unit/direction),
+//! all operand forms (by reference, `*Arithmetic::from`, `+=`/`-=`), the
+//! `DateTime` calendar helpers and a calendar grid (every day of a set of
+//! years x small years/months spans).
+//!
+//! jiff values are read back through *strict* field readings: a date that is
+//! not a calendar day or a time that is not a clock reading (hour 24, second
+//! 60, ...) is poisoned instead of being summed into a plausible number.
 
 use jiff::civil::{Date, DateTime, Time};
 use jiff::{SignedDuration, Span};
@@ -27,6 +42,36 @@ use std::collections::BTreeSet;
 use std::sync::atomic::{AtomicU64, Ordering::Relaxed};
 use std::time::Duration as UDur;
 use vf::conv::{self, DAY_NS, NS};
+
+// ---------------------------------------------------------------------------
+// strict readings of jiff values (public accessors only)
+// ---------------------------------------------------------------------------
+
+/// Nanosecond of the day of a jiff time, read from its public fields. A
+/// `Time` whose fields are not a clock reading (hour 24, second 60, a
+/// sub-second of 1_000_000_000, which a defective carry can fabricate and
+/// which would otherwise *sum* to the right nanosecond count) maps to a poison
+/// value that never equals a model result. Same idea as
+/// `vf::conv::date_epoch_day` for dates.
+fn time_ns(t: Time) -> i128 {
+    let (h, m, s, n) = (t.hour() as i128, t.minute() as i128, t.second() as i128, t.subsec_nanosecond() as i128);
+    if !(0..24).contains(&h) || !(0..60).contains(&m) || !(0..60).contains(&s) || !(0..NS).contains(&n) {
+        return TIME_POISON;
+    }
+    (h * 3600 + m * 60 + s) * NS + n
+}
+const TIME_POISON: i128 = -(1i128 << 100);
+
+/// Civil datetime as nanoseconds since 1970-01-01T00:00:00 (wall clock);
+/// poisoned when either component is not a valid reading.
+fn dt_ns(dt: DateTime) -> i128 {
+    let t = time_ns(dt.time());
+    if t < 0 {
+        return t;
+    }
+    // (an invalid date is poisoned by date_epoch_day: about -1e9 days)
+    conv::date_epoch_day(dt.date()) as i128 * DAY_NS + t
+}
 use vf::{guard, panic_sig, Report};
 
 // ---------------------------------------------------------------------------
@@ -69,14 +114,64 @@ fn carries(u: usize) -> &'static [i64] {
     }
 }
 
+/// Magnitudes around the *absolute* range of dates counted from the epoch
+/// (-4,371,587 ..= 2,932,896 days), expressed in the unit: a difference may
+/// legitimately exceed them (up to the unit's limit), so an implementation
+/// that validates a delta against an absolute range fails exactly here.
+/// (For nanoseconds the count does not fit an i64: no such span exists.)
+fn around_epoch_range(u: usize) -> &'static [i64] {
+    match u {
+        0 => &[8_029, 8_030, 11_968, 11_969],
+        1 => &[96_359, 96_360, 143_624, 143_625],
+        2 => &[418_985, 418_986, 624_512, 624_513],
+        3 => &[2_932_896, 2_932_897, 4_371_587, 4_371_588, 7_304_476],
+        4 => &[70_389_504, 70_389_528, 104_918_088, 104_918_112],
+        5 => &[4_223_370_240, 4_223_371_680, 6_295_085_280, 6_295_086_720],
+        6 => &[253_402_214_400, 253_402_300_800, 377_705_116_800, 377_705_203_200],
+        7 => &[253_402_214_400_000, 253_402_300_800_000, 377_705_116_800_000, 377_705_203_200_000],
+        8 => &[253_402_214_400_000_000, 253_402_300_800_000_000, 377_705_116_800_000_000, 377_705_203_200_000_000],
+        _ => &[],
+    }
+}
+
+/// Widths of machine integers a unit count could be narrowed to on some path
+/// (i32, u32, f64 mantissa), where they are legal values of the unit.
+const WIDTHS: [i64; 5] = [i32::MAX as i64, 1 << 31, u32::MAX as i64, 1 << 32, 1 << 53];
+
+/// A mid-range magnitude per unit (about 41,000 days for the time units; the
+/// nanosecond value stays below i64::MAX): large enough to leave every
+/// small-value fast path, small enough that the result is usually in range.
+const MID: [i64; 10] = [
+    1_000,
+    1_001,
+    5_003,
+    40_003,
+    1_000_003,
+    60_000_007,
+    3_600_000_011,
+    3_600_000_000_013,
+    3_600_000_000_000_017,
+    3_600_000_000_000_000_019,
+];
+
 fn single_values(u: usize) -> Vec<i64> {
     let mut s = BTreeSet::new();
-    for x in [1, 2, LIMITS[u] - 1, LIMITS[u]] {
+    for x in [1, 2, LIMITS[u] - 1, LIMITS[u], MID[u]] {
         s.insert(x);
     }
     for &c in carries(u) {
         for x in [c - 1, c, c + 1] {
             s.insert(x);
+        }
+    }
+    for &x in around_epoch_range(u) {
+        s.insert(x);
+    }
+    if u >= 5 {
+        for x in WIDTHS {
+            for y in [x - 1, x, x + 1] {
+                s.insert(y);
+            }
         }
     }
     s.into_iter().filter(|&x| x >= 1 && x <= LIMITS[u]).collect()
@@ -85,7 +180,7 @@ fn single_values(u: usize) -> Vec<i64> {
 fn mix_values(u: usize, thorough: bool) -> Vec<i64> {
     let c = carries(u);
     let mut s = BTreeSet::new();
-    for x in [1, c[0], c[0] + 1, *c.last().unwrap(), LIMITS[u]] {
+    for x in [1, c[0], c[0] + 1, *c.last().unwrap(), LIMITS[u], MID[u]] {
         s.insert(x);
     }
     if thorough {
@@ -93,19 +188,8 @@ fn mix_values(u: usize, thorough: bool) -> Vec<i64> {
             s.insert(x);
         }
     }
-    // magnitudes around the *absolute* range of dates counted from the epoch
-    // (-4,371,587 ..= 2,932,896 days), expressed in the unit: a difference may
-    // legitimately exceed them (up to the unit's limit), so an implementation
-    // that validates a delta against an absolute range fails exactly here
-    let around_epoch_range: &[i64] = match u {
-        0 => &[8_029, 8_030, 11_968, 11_969],
-        1 => &[96_359, 96_360, 143_624, 143_625],
-        2 => &[418_985, 418_986, 624_512, 624_513],
-        3 => &[2_932_896, 2_932_897, 4_371_587, 4_371_588, 7_304_476],
-        4 => &[70_389_504, 70_389_528, 104_918_088, 104_918_112],
-        _ => &[],
-    };
-    for &x in around_epoch_range {
+    // magnitudes around the absolute epoch-day range (see around_epoch_range)
+    for &x in around_epoch_range(u) {
         s.insert(x);
     }
     s.into_iter().filter(|&x| x >= 1 && x <= LIMITS[u]).collect()
@@ -161,6 +245,60 @@ fn span_pool(thorough: bool) -> Vec<Sp> {
                 };
             }
             push(sp);
+        }
+    }
+    // every 3-unit mix over a small alphabet: just past the first carry and
+    // the mid-range magnitude (thorough: also 1)
+    let tri = |u: usize| -> Vec<i64> {
+        let mut v = vec![carries(u)[0] + 1, MID[u]];
+        if thorough {
+            v.push(1);
+        }
+        v
+    };
+    for u in 0..10 {
+        for w in (u + 1)..10 {
+            for z in (w + 1)..10 {
+                for &a in &tri(u) {
+                    for &b in &tri(w) {
+                        for &c in &tri(z) {
+                            let mut sp = [0; 10];
+                            sp[u] = a;
+                            sp[w] = b;
+                            sp[z] = c;
+                            push(sp);
+                        }
+                    }
+                }
+            }
+        }
+    }
+    // composite carries: time units that only *together* reach a whole number
+    // of days (one nanosecond short of it, exactly it, one past it), alone and
+    // on top of calendar units
+    for days in [1i64, 2, 366] {
+        for delta in [-1i64, 0, 1] {
+            for cal in [[0i64; 4], [0, 0, 0, 1], [0, 1, 0, 0], [1, 0, 1, 0], [0, 11, 0, 27]] {
+                let mut sp = [0i64; 10];
+                sp[..4].copy_from_slice(&cal);
+                sp[4] = days * 24 - 1;
+                sp[5] = 59;
+                sp[6] = 59;
+                sp[7] = 999;
+                sp[8] = 999;
+                sp[9] = 1_000 + delta;
+                push(sp);
+                // the same total with every unit above its natural carry
+                let mut sp2 = [0i64; 10];
+                sp2[..4].copy_from_slice(&cal);
+                sp2[4] = (days - 1) * 24;
+                sp2[5] = 23 * 60;
+                sp2[6] = 59 * 60;
+                sp2[7] = 59_000;
+                sp2[8] = 999_000;
+                sp2[9] = 1_000_000 + delta;
+                push(sp2);
+            }
         }
     }
     out
@@ -319,6 +457,11 @@ fn sdur_pool(thorough: bool) -> Vec<(i64, i32)> {
         secs.extend([n * 86_400 - 1, n * 86_400, n * 86_400 + 1]);
     }
     secs.extend([i64::MAX / 1_000_000_000, i64::MAX / 1_000_000_000 + 1, i64::MAX - 1, i64::MAX]);
+    // widths a second count could be narrowed to, and the points where the
+    // count multiplied by 1e3/1e6 (ms, us), 60, 3600 or 86400 leaves an i64
+    for x in [i32::MAX as i64, 1 << 32, i64::MAX / 1_000, i64::MAX / 1_000_000, i64::MAX / 60, i64::MAX / 3_600, i64::MAX / 86_400] {
+        secs.extend([x, x + 1]);
+    }
     let nanos: &[i32] = &[0, 1, 500_000_000, 999_999_999];
     let mut out = vec![];
     let mut seen = BTreeSet::new();
@@ -368,6 +511,8 @@ struct Tally {
     op_panics: AtomicU64,
     f6_class: AtomicU64,
     n1_class: AtomicU64,
+    /// results exactly at the type's minimum or maximum
+    at_limit: AtomicU64,
 }
 impl Tally {
     fn new() -> Tally {
@@ -382,6 +527,7 @@ impl Tally {
             op_panics: AtomicU64::new(0),
             f6_class: AtomicU64::new(0),
             n1_class: AtomicU64::new(0),
+            at_limit: AtomicU64::new(0),
         }
     }
 }
@@ -501,6 +647,97 @@ macro_rules! six_ops {
     }};
 }
 
+// ---------------------------------------------------------------------------
+// one (value, span) pair, all operations
+// ---------------------------------------------------------------------------
+
+/// `Date` x `Span`: checked/saturating add/sub (and `+`/`-` when `ops`).
+/// Returns the number of operations evaluated.
+fn date_span_case(r: &Report, t: &Tally, sec: &str, d: Date, ymd: (i64, i64, i64), sp: &Sp, span: Span, ops: bool) -> u64 {
+    let (dmin, dmax) = (cal::min_day(), cal::max_day());
+    let (add, c1) = model_date_add(ymd, &parts(sp, 1));
+    let (sub, c2) = model_date_add(ymd, &parts(sp, -1));
+    if c1 || c2 {
+        t.clamped.fetch_add(1, Relaxed);
+    }
+    for w in [add, sub] {
+        if w == Some(dmin) || w == Some(dmax) {
+            t.at_limit.fetch_add(1, Relaxed);
+        }
+    }
+    let sign = parts(sp, 1).sign;
+    let case = |op: &str| format!("Date {} {} {}", fmt_ymd(ymd), op, fmt_sp(sp));
+    six_ops!(r, t, sec, "Date", "span", d, span, conv::date_epoch_day, add, sub, sign, dmin, dmax, case, ops, None, None)
+}
+
+/// `DateTime` x `Span`.
+fn dt_span_case(r: &Report, t: &Tally, sec: &str, dt: DateTime, ymd: (i64, i64, i64), tod: i128, sp: &Sp, span: Span, ops: bool) -> u64 {
+    let (dtmin, dtmax) = (conv::dt_min_ns(), conv::dt_max_ns());
+    let (add, c1, y1) = model_dt_add(ymd, tod, &parts(sp, 1));
+    let (sub, c2, y2) = model_dt_add(ymd, tod, &parts(sp, -1));
+    if c1 || c2 {
+        t.clamped.fetch_add(1, Relaxed);
+    }
+    if y1 || y2 {
+        t.carried.fetch_add(1, Relaxed);
+    }
+    for w in [add, sub] {
+        if w == Some(dtmin) || w == Some(dtmax) {
+            t.at_limit.fetch_add(1, Relaxed);
+        }
+    }
+    let sign = parts(sp, 1).sign;
+    let case = |op: &str| format!("DateTime {}T{} {} {}", fmt_ymd(ymd), fmt_tod(tod), op, fmt_sp(sp));
+    six_ops!(r, t, sec, "DateTime", "span", dt, span, dt_ns, add, sub, sign, dtmin, dtmax, case, ops, None, None)
+}
+
+/// `Time` x `Span`: checked/saturating/wrapping add and sub and the operators
+/// (8 operations).
+fn time_span_case(r: &Report, t: &Tally, sec: &str, tm: Time, tod: i128, sp: &Sp, span: Span) {
+    let pa = parts(sp, 1);
+    let ps = parts(sp, -1);
+    for (dir, p) in [(1, &pa), (-1, &ps)] {
+        let total = tod + p.time_ns;
+        let in_day = (0..DAY_NS).contains(&total) && !p.cal_nonzero;
+        let checked = if in_day { Some(total) } else { None };
+        let sat = checked.unwrap_or(if p.sign < 0 { 0 } else { DAY_NS - 1 });
+        let wrap = total.rem_euclid(DAY_NS);
+        // F6: the 64-bit wrapping sum equals the exact sum iff the exact sum fits an i64
+        let f6 = total > i64::MAX as i128 || total < i64::MIN as i128;
+        if f6 {
+            t.f6_class.fetch_add(1, Relaxed);
+        }
+        if !in_day {
+            t.wrapped.fetch_add(1, Relaxed);
+            t.err.fetch_add(1, Relaxed);
+            if p.sign < 0 { t.sat_min.fetch_add(1, Relaxed) } else { t.sat_max.fetch_add(1, Relaxed) };
+        } else {
+            t.ok.fetch_add(1, Relaxed);
+            if total == 0 || total == DAY_NS - 1 {
+                t.at_limit.fetch_add(1, Relaxed);
+            }
+        }
+        let case = |op: &str| format!("Time {} {} {}", fmt_tod(tod), op, fmt_sp(sp));
+        let wsig = if f6 { "Time::wrapping_{add,sub}(span)" } else if dir > 0 { "Time::wrapping_add(span)" } else { "Time::wrapping_sub(span)" };
+        let osig = if f6 { "Time::wrapping_{add,sub}(span)" } else if dir > 0 { "Time + span" } else { "Time - span" };
+        let wcls = if f6 { "mod24h:|total_ns|>i64::MAX" } else { "value" };
+        if dir > 0 {
+            ck_checked(r, sec, "Time::checked_add(span)", None, &|| case("checked_add"), guard(|| tm.checked_add(span).ok().map(time_ns)), &checked);
+            ck_total(r, sec, "Time::saturating_add(span)", "value", None, &|| case("saturating_add"), guard(|| time_ns(tm.saturating_add(span))), &sat);
+            f6_aware(r, sec, wsig, wcls, f6, &|| case("wrapping_add"), guard(|| time_ns(tm.wrapping_add(span))), wrap);
+            f6_aware(r, sec, osig, wcls, f6, &|| case("+"), guard(|| time_ns(tm + span)), wrap);
+        } else {
+            ck_checked(r, sec, "Time::checked_sub(span)", None, &|| case("checked_sub"), guard(|| tm.checked_sub(span).ok().map(time_ns)), &checked);
+            ck_total(r, sec, "Time::saturating_sub(span)", "value", None, &|| case("saturating_sub"), guard(|| time_ns(tm.saturating_sub(span))), &sat);
+            f6_aware(r, sec, wsig, wcls, f6, &|| case("wrapping_sub"), guard(|| time_ns(tm.wrapping_sub(span))), wrap);
+            f6_aware(r, sec, osig, wcls, f6, &|| case("-"), guard(|| time_ns(tm - span)), wrap);
+        }
+    }
+}
+
+#[path = "c08/ext.rs"]
+mod ext;
+
 fn main() {
     let r = Report::from_args("C08");
     let thorough = r.thorough();
@@ -517,7 +754,7 @@ fn main() {
     r.count("sdur_pool", sdurs.len() as u64);
     r.count("udur_pool", udurs.len() as u64);
     r.note(format!(
-        "alphabets: {} spans (single units at 0,1,2,carry-1..carry+1,limit-1,limit; all 2-unit mixes; fixed mixes; both signs), {} dates, {} times, {} signed durations, {} unsigned durations",
+        "alphabets: {} spans (single units at 0,1,2,carry-1..carry+1,mid,epoch-day-range+-,2^31/2^32/2^53,limit-1,limit; all 2-unit mixes; all 3-unit mixes over a small alphabet; fixed mixes; composite carries; both signs), {} dates, {} times, {} signed durations, {} unsigned durations",
         spans.len(), dates.len(), times.len(), sdurs.len(), udurs.len()
     ));
 
@@ -533,14 +770,7 @@ fn main() {
             let mut n = 0u64;
             let mut k = 0u64;
             for (sp, span) in &spans {
-                let (add, c1) = model_date_add(ymd, &parts(sp, 1));
-                let (sub, c2) = model_date_add(ymd, &parts(sp, -1));
-                if c1 || c2 {
-                    t.clamped.fetch_add(1, Relaxed);
-                }
-                let sign = parts(sp, 1).sign;
-                let case = |op: &str| format!("Date {} {} {}", fmt_ymd(ymd), op, fmt_sp(sp));
-                k += six_ops!(&r, &t, "date_span", "Date", "span", d, *span, conv::date_epoch_day, add, sub, sign, dmin, dmax, case, true, None, None);
+                k += date_span_case(&r, &t, "date_span", d, ymd, sp, *span, true);
                 n += 1;
             }
             r.add_states(n);
@@ -555,24 +785,14 @@ fn main() {
         let dts: Vec<(Date, Time)> = dates.iter().flat_map(|&d| times.iter().map(move |&tm| (d, tm))).collect();
         dts.par_iter().enumerate().for_each(|(idx, &(d, tm))| {
             let ymd = conv::date_ymd(d);
-            let tod = conv::time_ns(tm);
+            let tod = time_ns(tm);
             let dt = DateTime::from_parts(d, tm);
             // quick: operators (which panic on overflow) on every third datetime only
             let ops = thorough || idx % 3 == 0;
             let mut n = 0u64;
             let mut k = 0u64;
             for (sp, span) in &spans {
-                let (add, c1, y1) = model_dt_add(ymd, tod, &parts(sp, 1));
-                let (sub, c2, y2) = model_dt_add(ymd, tod, &parts(sp, -1));
-                if c1 || c2 {
-                    t.clamped.fetch_add(1, Relaxed);
-                }
-                if y1 || y2 {
-                    t.carried.fetch_add(1, Relaxed);
-                }
-                let sign = parts(sp, 1).sign;
-                let case = |op: &str| format!("DateTime {}T{} {} {}", fmt_ymd(ymd), fmt_tod(tod), op, fmt_sp(sp));
-                k += six_ops!(&r, &t, "datetime_span", "DateTime", "span", dt, *span, conv::dt_civil_ns, add, sub, sign, dtmin, dtmax, case, ops, None, None);
+                k += dt_span_case(&r, &t, "datetime_span", dt, ymd, tod, sp, *span, ops);
                 n += 1;
             }
             r.add_states(n);
@@ -584,46 +804,10 @@ fn main() {
     // ---------------- Time x Span ----------------
     r.section("time_span", || {
         times.par_iter().for_each(|&tm| {
-            let tod = conv::time_ns(tm);
+            let tod = time_ns(tm);
             let mut n = 0u64;
             for (sp, span) in &spans {
-                let span = *span;
-                let pa = parts(sp, 1);
-                let ps = parts(sp, -1);
-                for (dir, p) in [(1, &pa), (-1, &ps)] {
-                    let total = tod + p.time_ns;
-                    let in_day = (0..DAY_NS).contains(&total) && !p.cal_nonzero;
-                    let checked = if in_day { Some(total) } else { None };
-                    let sat = checked.unwrap_or(if p.sign < 0 { 0 } else { DAY_NS - 1 });
-                    let wrap = total.rem_euclid(DAY_NS);
-                    // F6: the 64-bit wrapping sum equals the exact sum iff the exact sum fits an i64
-                    let f6 = total > i64::MAX as i128 || total < i64::MIN as i128;
-                    if f6 {
-                        t.f6_class.fetch_add(1, Relaxed);
-                    }
-                    if !in_day {
-                        t.wrapped.fetch_add(1, Relaxed);
-                        t.err.fetch_add(1, Relaxed);
-                        if p.sign < 0 { t.sat_min.fetch_add(1, Relaxed) } else { t.sat_max.fetch_add(1, Relaxed) };
-                    } else {
-                        t.ok.fetch_add(1, Relaxed);
-                    }
-                    let case = |op: &str| format!("Time {} {} {}", fmt_tod(tod), op, fmt_sp(sp));
-                    let wsig = if f6 { "Time::wrapping_{add,sub}(span)" } else if dir > 0 { "Time::wrapping_add(span)" } else { "Time::wrapping_sub(span)" };
-                    let osig = if f6 { "Time::wrapping_{add,sub}(span)" } else if dir > 0 { "Time + span" } else { "Time - span" };
-                    let wcls = if f6 { "mod24h:|total_ns|>i64::MAX" } else { "value" };
-                    if dir > 0 {
-                        ck_checked(&r, "time_span", "Time::checked_add(span)", None, &|| case("checked_add"), guard(|| tm.checked_add(span).ok().map(conv::time_ns)), &checked);
-                        ck_total(&r, "time_span", "Time::saturating_add(span)", "value", None, &|| case("saturating_add"), guard(|| conv::time_ns(tm.saturating_add(span))), &sat);
-                        f6_aware(&r, "time_span", wsig, wcls, f6, &|| case("wrapping_add"), guard(|| conv::time_ns(tm.wrapping_add(span))), wrap);
-                        f6_aware(&r, "time_span", osig, wcls, f6, &|| case("+"), guard(|| conv::time_ns(tm + span)), wrap);
-                    } else {
-                        ck_checked(&r, "time_span", "Time::checked_sub(span)", None, &|| case("checked_sub"), guard(|| tm.checked_sub(span).ok().map(conv::time_ns)), &checked);
-                        ck_total(&r, "time_span", "Time::saturating_sub(span)", "value", None, &|| case("saturating_sub"), guard(|| conv::time_ns(tm.saturating_sub(span))), &sat);
-                        f6_aware(&r, "time_span", wsig, wcls, f6, &|| case("wrapping_sub"), guard(|| conv::time_ns(tm.wrapping_sub(span))), wrap);
-                        f6_aware(&r, "time_span", osig, wcls, f6, &|| case("-"), guard(|| conv::time_ns(tm - span)), wrap);
-                    }
-                }
+                time_span_case(&r, &t, "time_span", tm, tod, sp, *span);
                 n += 1;
             }
             r.add_states(n);
@@ -675,9 +859,9 @@ fn main() {
         let dts: Vec<(Date, Time)> = dates.iter().flat_map(|&d| times.iter().map(move |&tm| (d, tm))).collect();
         dts.par_iter().for_each(|&(d, tm)| {
             let dt = DateTime::from_parts(d, tm);
-            let c = conv::dt_civil_ns(dt);
+            let c = dt_ns(dt);
             let ymd = conv::date_ymd(d);
-            let tod = conv::time_ns(tm);
+            let tod = time_ns(tm);
             let mut k = 0u64;
             let mut n = 0u64;
             let model = |ns: i128| -> Option<i128> {
@@ -695,7 +879,7 @@ fn main() {
                 }
                 let sign = ns.signum() as i8;
                 let case = |op: &str| format!("DateTime {}T{} {} sdur({}s,{}ns)", fmt_ymd(ymd), fmt_tod(tod), op, s, nn);
-                k += six_ops!(&r, &t, "datetime_dur", "DateTime", "sdur", dt, dur, conv::dt_civil_ns, model(ns), model(-ns), sign, dtmin, dtmax, case, true, n1(ns), n1(-ns));
+                k += six_ops!(&r, &t, "datetime_dur", "DateTime", "sdur", dt, dur, dt_ns, model(ns), model(-ns), sign, dtmin, dtmax, case, true, n1(ns), n1(-ns));
                 n += 1;
             }
             for &(s, nn) in &udurs {
@@ -703,7 +887,7 @@ fn main() {
                 let ns = s as i128 * NS + nn as i128;
                 let sign = ns.signum() as i8;
                 let case = |op: &str| format!("DateTime {}T{} {} udur({}s,{}ns)", fmt_ymd(ymd), fmt_tod(tod), op, s, nn);
-                k += six_ops!(&r, &t, "datetime_dur", "DateTime", "udur", dt, dur, conv::dt_civil_ns, model(ns), model(-ns), sign, dtmin, dtmax, case, true, n1(ns), n1(-ns));
+                k += six_ops!(&r, &t, "datetime_dur", "DateTime", "udur", dt, dur, dt_ns, model(ns), model(-ns), sign, dtmin, dtmax, case, true, n1(ns), n1(-ns));
                 n += 1;
             }
             r.add_states(n);
@@ -714,7 +898,7 @@ fn main() {
 
     r.section("time_dur", || {
         times.par_iter().for_each(|&tm| {
-            let tod = conv::time_ns(tm);
+            let tod = time_ns(tm);
             let mut n = 0u64;
             macro_rules! time_dur {
                 ($kind:literal, $dur:expr, $ns:expr, $case:expr) => {{
@@ -735,15 +919,15 @@ fn main() {
                             if neg { t.sat_min.fetch_add(1, Relaxed) } else { t.sat_max.fetch_add(1, Relaxed) };
                         }
                         if dir > 0 {
-                            ck_checked(&r, "time_dur", concat!("Time::checked_add(", $kind, ")"), None, &|| $case("checked_add"), guard(|| tm.checked_add(dur).ok().map(conv::time_ns)), &checked);
-                            ck_total(&r, "time_dur", concat!("Time::saturating_add(", $kind, ")"), "value", None, &|| $case("saturating_add"), guard(|| conv::time_ns(tm.saturating_add(dur))), &sat);
-                            ck_total(&r, "time_dur", concat!("Time::wrapping_add(", $kind, ")"), "value", None, &|| $case("wrapping_add"), guard(|| conv::time_ns(tm.wrapping_add(dur))), &wrap);
-                            ck_total(&r, "time_dur", concat!("Time + ", $kind), "value", None, &|| $case("+"), guard(|| conv::time_ns(tm + dur)), &wrap);
+                            ck_checked(&r, "time_dur", concat!("Time::checked_add(", $kind, ")"), None, &|| $case("checked_add"), guard(|| tm.checked_add(dur).ok().map(time_ns)), &checked);
+                            ck_total(&r, "time_dur", concat!("Time::saturating_add(", $kind, ")"), "value", None, &|| $case("saturating_add"), guard(|| time_ns(tm.saturating_add(dur))), &sat);
+                            ck_total(&r, "time_dur", concat!("Time::wrapping_add(", $kind, ")"), "value", None, &|| $case("wrapping_add"), guard(|| time_ns(tm.wrapping_add(dur))), &wrap);
+                            ck_total(&r, "time_dur", concat!("Time + ", $kind), "value", None, &|| $case("+"), guard(|| time_ns(tm + dur)), &wrap);
                         } else {
-                            ck_checked(&r, "time_dur", concat!("Time::checked_sub(", $kind, ")"), None, &|| $case("checked_sub"), guard(|| tm.checked_sub(dur).ok().map(conv::time_ns)), &checked);
-                            ck_total(&r, "time_dur", concat!("Time::saturating_sub(", $kind, ")"), "value", None, &|| $case("saturating_sub"), guard(|| conv::time_ns(tm.saturating_sub(dur))), &sat);
-                            ck_total(&r, "time_dur", concat!("Time::wrapping_sub(", $kind, ")"), "value", None, &|| $case("wrapping_sub"), guard(|| conv::time_ns(tm.wrapping_sub(dur))), &wrap);
-                            ck_total(&r, "time_dur", concat!("Time - ", $kind), "value", None, &|| $case("-"), guard(|| conv::time_ns(tm - dur)), &wrap);
+                            ck_checked(&r, "time_dur", concat!("Time::checked_sub(", $kind, ")"), None, &|| $case("checked_sub"), guard(|| tm.checked_sub(dur).ok().map(time_ns)), &checked);
+                            ck_total(&r, "time_dur", concat!("Time::saturating_sub(", $kind, ")"), "value", None, &|| $case("saturating_sub"), guard(|| time_ns(tm.saturating_sub(dur))), &sat);
+                            ck_total(&r, "time_dur", concat!("Time::wrapping_sub(", $kind, ")"), "value", None, &|| $case("wrapping_sub"), guard(|| time_ns(tm.wrapping_sub(dur))), &wrap);
+                            ck_total(&r, "time_dur", concat!("Time - ", $kind), "value", None, &|| $case("-"), guard(|| time_ns(tm - dur)), &wrap);
                         }
                     }
                     n += 1;
@@ -762,6 +946,12 @@ fn main() {
             r.add_validated(n * 8);
         });
     });
+
+    // ---------------- extensions (c08/ext.rs) ----------------
+    r.section("boundary_steps", || ext::boundary_steps(&r, &t, &dates, &times));
+    r.section("operand_forms", || ext::operand_forms(&r, &t, &dates, &times, &spans, &sdurs, &udurs));
+    r.section("datetime_helpers", || ext::datetime_helpers(&r, &dates, &times, thorough));
+    r.section("calendar_grid", || ext::calendar_grid(&r, &t, thorough));
 
     // ---------------- series ----------------
     r.section("series", || {
@@ -838,11 +1028,11 @@ fn main() {
                 items += want.len() as u64;
                 compare("Date", &|| format!("Date {} series {}", fmt_ymd(ymd), fmt_sp(sp)), guard(|| collect(d.series(*span), n_items, |x| conv::date_epoch_day(x) as i128)), &want);
                 for &tm in &[Time::midnight(), Time::new(23, 59, 59, 999_999_999).unwrap(), Time::new(12, 0, 0, 500_000_000).unwrap()] {
-                    let tod = conv::time_ns(tm);
+                    let tod = time_ns(tm);
                     let want = model_seq(&|m| model_dt_add(ymd, tod, &parts(m, 1)).0, sp);
                     items += want.len() as u64;
                     let dt = DateTime::from_parts(d, tm);
-                    compare("DateTime", &|| format!("DateTime {}T{} series {}", fmt_ymd(ymd), fmt_tod(tod), fmt_sp(sp)), guard(|| collect(dt.series(*span), n_items, conv::dt_civil_ns)), &want);
+                    compare("DateTime", &|| format!("DateTime {}T{} series {}", fmt_ymd(ymd), fmt_tod(tod), fmt_sp(sp)), guard(|| collect(dt.series(*span), n_items, dt_ns)), &want);
                 }
             }
             r.add_states(pspans.len() as u64 * 4);
@@ -850,7 +1040,7 @@ fn main() {
             r.add_validated(items);
         });
         times.par_iter().for_each(|&tm| {
-            let tod = conv::time_ns(tm);
+            let tod = time_ns(tm);
             let mut items = 0u64;
             for (sp, span) in &pspans {
                 let want = model_seq(
@@ -862,7 +1052,7 @@ fn main() {
                     sp,
                 );
                 items += want.len() as u64;
-                compare("Time", &|| format!("Time {} series {}", fmt_tod(tod), fmt_sp(sp)), guard(|| collect(tm.series(*span), n_items, conv::time_ns)), &want);
+                compare("Time", &|| format!("Time {} series {}", fmt_tod(tod), fmt_sp(sp)), guard(|| collect(tm.series(*span), n_items, time_ns)), &want);
             }
             r.add_states(pspans.len() as u64);
             r.add_transitions(items);
@@ -886,6 +1076,7 @@ fn main() {
         ("operator_panics_expected_and_seen", &t.op_panics),
         ("time_span_total_exceeds_i64", &t.f6_class),
         ("duration_day_count_outside_epoch_day_range", &t.n1_class),
+        ("results_exactly_at_min_or_max", &t.at_limit),
     ] {
         r.outcome(name, c.load(Relaxed));
     }
@@ -897,6 +1088,7 @@ fn main() {
         r.require(t.wrapped.load(Relaxed) > 0, "some time additions leave the day");
         r.require(t.op_panics.load(Relaxed) > 0, "operators panic on overflow somewhere");
         r.require(t.f6_class.load(Relaxed) > 0, "span totals beyond 64 bits are in the pool");
+        r.require(t.at_limit.load(Relaxed) > 0, "results exactly at the minimum / maximum of the type");
     }
     r.finish();
 }
@@ -944,6 +1136,8 @@ fn series_periods() -> Vec<Sp> {
         }
         v.push(n);
     };
+    // zero period: documented to stop only on overflow, so it repeats the start
+    one(&[]);
     one(&[(3, 1)]);
     one(&[(2, 1)]);
     one(&[(1, 1)]);
@@ -975,5 +1169,10 @@ fn series_periods() -> Vec<Sp> {
     one(&[(8, 631_107_417_600_000_000 / 300)]);
     one(&[(1, 239_976)]);
     one(&[(2, 10_000), (6, 1)]);
+    // month-end starts: each item is start + k months (clamped from the start's day, not cumulatively)
+    one(&[(1, 1), (9, 1)]);
+    one(&[(1, 13)]);
+    one(&[(0, 4)]);
+    one(&[(4, 23), (5, 59), (6, 59), (7, 999), (8, 999), (9, 1_000)]);
     v
 }
